@@ -44,10 +44,11 @@ VARIABLES
     slack,    \* the limit was raised and no stream has finished since (waiters need not have moved)
     doomed,   \* open streams the client has a reason to reset (cancel, closed body, GOAWAY > last)
     own,      \* [Conns -> [stream id -> request]]
-    req       \* [Reqs -> [st, c, s, body, direct, may]]
+    req,      \* [Reqs -> [st, c, s, body, direct, may]]
+    dev       \* named deviations of the real code that were observed (known findings), see Quiesce
 
 connVars == <<cst, lastId, open, cend, send, fresh, freshLo, pr, blocked, dnr, maxc, ga, resv, slack, doomed, own>>
-vars == <<strict, cst, lastId, open, cend, send, fresh, freshLo, pr, blocked, dnr, maxc, ga, resv, slack, doomed, own, req>>
+vars == <<strict, dev, cst, lastId, open, cend, send, fresh, freshLo, pr, blocked, dnr, maxc, ga, resv, slack, doomed, own, req>>
 
 J17 == "C17" \in Judge
 J18 == "C18" \in Judge
@@ -66,7 +67,7 @@ Fin(q, kinds) == [q EXCEPT !.st = "fin", !.may = kinds]            \* RoundTrip 
 Back(q, kinds) == [q EXCEPT !.st = "wait", !.may = kinds]          \* retry (or, if kinds # {}, return one of them now)
 
 InitWith(st) ==
-    /\ strict = st
+    /\ strict = st /\ dev = {}
     /\ cst = [c \in Conns |-> "none"] /\ lastId = [c \in Conns |-> 0]
     /\ open = [c \in Conns |-> {}] /\ cend = [c \in Conns |-> {}] /\ send = [c \in Conns |-> {}]
     /\ fresh = [c \in Conns |-> {}] /\ freshLo = [c \in Conns |-> {}]
@@ -89,14 +90,14 @@ NoDrop == UNCHANGED <<open, slack, doomed>>
 Start(r, b) ==
     /\ r \in Reqs /\ req[r].st = "new"
     /\ req' = [req EXCEPT ![r] = [ReqNew EXCEPT !.st = "wait", !.body = b]]
-    /\ UNCHANGED <<strict, connVars>>
+    /\ UNCHANGED <<strict, dev, connVars>>
 
 (* ClientConn.RoundTrip called directly on connection c; it uses up one reservation *)
 StartOn(r, c, b) ==
     /\ r \in Reqs /\ c \in Conns /\ req[r].st = "new" /\ cst[c] # "none"
     /\ req' = [req EXCEPT ![r] = [ReqNew EXCEPT !.st = "wait", !.body = b, !.direct = c]]
     /\ resv' = [resv EXCEPT ![c] = IF @ > 0 THEN @ - 1 ELSE 0]
-    /\ UNCHANGED <<strict, cst, lastId, open, cend, send, fresh, freshLo, pr, blocked, dnr, maxc, ga, slack, doomed, own>>
+    /\ UNCHANGED <<strict, dev, cst, lastId, open, cend, send, fresh, freshLo, pr, blocked, dnr, maxc, ga, slack, doomed, own>>
 
 (* ClientConn.ReserveNewRequest: what the pool asks before it assigns a request.  C17: without *)
 (* strict mode a connection at its limit does not accept.                                      *)
@@ -105,7 +106,7 @@ Reserve(c, ok) ==
     /\ (J17 /\ ok) => /\ MayOpen(c)
                       /\ strict \/ Count(c) + resv[c] < maxc[c]
     /\ resv' = [resv EXCEPT ![c] = IF ok THEN @ + 1 ELSE @]
-    /\ UNCHANGED <<strict, cst, lastId, open, cend, send, fresh, freshLo, pr, blocked, dnr, maxc, ga, slack, doomed, own, req>>
+    /\ UNCHANGED <<strict, dev, cst, lastId, open, cend, send, fresh, freshLo, pr, blocked, dnr, maxc, ga, slack, doomed, own, req>>
 
 Cancel(r) ==
     /\ r \in Reqs /\ req[r].st \in {"wait", "open", "done"}
@@ -113,14 +114,14 @@ Cancel(r) ==
            hasStream == c \in Conns /\ s \in open[c] IN
        /\ req' = [req EXCEPT ![r] = IF @.st = "done" THEN @ ELSE Fin(@, {"canceled"})]
        /\ doomed' = IF hasStream THEN [doomed EXCEPT ![c] = @ \cup {s}] ELSE doomed
-    /\ UNCHANGED <<strict, cst, lastId, open, cend, send, fresh, freshLo, pr, blocked, dnr, maxc, ga, resv, slack, own>>
+    /\ UNCHANGED <<strict, dev, cst, lastId, open, cend, send, fresh, freshLo, pr, blocked, dnr, maxc, ga, resv, slack, own>>
 
 (* the application closes the response body of a finished RoundTrip *)
 CloseBody(r) ==
     /\ r \in Reqs /\ req[r].st = "done"
     /\ LET c == req[r].c  s == req[r].s IN
        doomed' = IF c \in Conns /\ s \in open[c] THEN [doomed EXCEPT ![c] = @ \cup {s}] ELSE doomed
-    /\ UNCHANGED <<strict, cst, lastId, open, cend, send, fresh, freshLo, pr, blocked, dnr, maxc, ga, resv, slack, own, req>>
+    /\ UNCHANGED <<strict, dev, cst, lastId, open, cend, send, fresh, freshLo, pr, blocked, dnr, maxc, ga, resv, slack, own, req>>
 
 (* ---------------- server ---------------- *)
 Settings(c, m) ==
@@ -128,7 +129,7 @@ Settings(c, m) ==
     /\ maxc' = [maxc EXCEPT ![c] = m]
     /\ slack' = [slack EXCEPT ![c] = @ \/ m > maxc[c]]
     /\ freshLo' = [freshLo EXCEPT ![c] = {}]
-    /\ UNCHANGED <<strict, cst, lastId, open, cend, send, fresh, pr, blocked, dnr, ga, resv, doomed, own, req>>
+    /\ UNCHANGED <<strict, dev, cst, lastId, open, cend, send, fresh, pr, blocked, dnr, ga, resv, doomed, own, req>>
 
 SawStreamFrame(c, hd) ==       \* bookkeeping common to HEADERS/DATA (hd) and RST_STREAM from the server
     /\ fresh' = [fresh EXCEPT ![c] = {}] /\ freshLo' = [freshLo EXCEPT ![c] = {}]
@@ -142,14 +143,14 @@ Resp(c, s, es) ==
     /\ send' = [send EXCEPT ![c] = IF es /\ s \in open[c] THEN @ \cup {s} ELSE @]
     /\ IF es /\ s \in open[c] /\ s \in cend[c] THEN Drop(c, {s}) ELSE NoDrop
     /\ SawStreamFrame(c, TRUE)
-    /\ UNCHANGED <<strict, cst, lastId, cend, pr, dnr, maxc, ga, resv, own>>
+    /\ UNCHANGED <<strict, dev, cst, lastId, cend, pr, dnr, maxc, ga, resv, own>>
 
 SData(c, s, es) ==
     /\ c \in Conns /\ cst[c] = "up"
     /\ send' = [send EXCEPT ![c] = IF es /\ s \in open[c] THEN @ \cup {s} ELSE @]
     /\ IF es /\ s \in open[c] /\ s \in cend[c] THEN Drop(c, {s}) ELSE NoDrop
     /\ SawStreamFrame(c, TRUE)
-    /\ UNCHANGED <<strict, cst, lastId, cend, pr, dnr, maxc, ga, resv, own, req>>
+    /\ UNCHANGED <<strict, dev, cst, lastId, cend, pr, dnr, maxc, ga, resv, own, req>>
 
 (* RST_STREAM from the server; REFUSED_STREAM (7) is retryable *)
 SRst(c, s, code) ==
@@ -164,14 +165,14 @@ SRst(c, s, code) ==
     /\ Drop(c, {s})
     /\ SawStreamFrame(c, FALSE)
     /\ dnr' = [dnr EXCEPT ![c] = @ \/ code = 1]
-    /\ UNCHANGED <<strict, cst, lastId, cend, send, pr, maxc, ga, resv, own>>
+    /\ UNCHANGED <<strict, dev, cst, lastId, cend, send, pr, maxc, ga, resv, own>>
 
 PingAck(c) ==
     /\ c \in Conns /\ cst[c] = "up"
     /\ pr' = [pr EXCEPT ![c] = 0]
     /\ blocked' = [blocked EXCEPT ![c] = @ \/ pr[c] > 0]
     /\ freshLo' = [freshLo EXCEPT ![c] = {}]
-    /\ UNCHANGED <<strict, cst, lastId, open, cend, send, fresh, dnr, maxc, ga, resv, slack, doomed, own, req>>
+    /\ UNCHANGED <<strict, dev, cst, lastId, open, cend, send, fresh, dnr, maxc, ga, resv, slack, doomed, own, req>>
 
 (* GOAWAY(last, code).  Streams above last are aborted: C18 says they are retryable. *)
 AfterGoAway(q, special) ==
@@ -188,7 +189,7 @@ GoAway(c, last, code) ==
        /\ req' = [r \in Reqs |-> IF req[r].st = "open" /\ req[r].c = c /\ req[r].s \in hit
                                   THEN AfterGoAway(req[r], req[r].s = 1 /\ err) ELSE req[r]]
     /\ freshLo' = [freshLo EXCEPT ![c] = {}]
-    /\ UNCHANGED <<strict, cst, lastId, open, cend, send, fresh, pr, blocked, dnr, maxc, resv, slack, own>>
+    /\ UNCHANGED <<strict, dev, cst, lastId, open, cend, send, fresh, pr, blocked, dnr, maxc, resv, slack, own>>
 
 (* the server closes the connection: what is in flight fails with the connection's error *)
 SClose(c) ==
@@ -200,7 +201,7 @@ SClose(c) ==
                  ELSE IF req[r].st = "wait" /\ req[r].direct = c THEN Fin(req[r], {"unusable", "notest"})
                  ELSE req[r]]
     /\ Drop(c, open[c])
-    /\ UNCHANGED <<strict, lastId, cend, send, fresh, freshLo, pr, blocked, dnr, maxc, ga, resv, own>>
+    /\ UNCHANGED <<strict, dev, lastId, cend, send, fresh, freshLo, pr, blocked, dnr, maxc, ga, resv, own>>
 
 (* ---------------- client ---------------- *)
 (* the pool dials connection c.  C17 (strict): a new connection is not a way around the limit. *)
@@ -209,7 +210,7 @@ Dial(c) ==
     /\ \A d \in Conns : d < c => cst[d] # "none"
     /\ (J17 /\ strict) => ~\E d \in Conns : Usable(d)
     /\ cst' = [cst EXCEPT ![c] = "up"]
-    /\ UNCHANGED <<strict, lastId, open, cend, send, fresh, freshLo, pr, blocked, dnr, maxc, ga, resv, slack, doomed, own, req>>
+    /\ UNCHANGED <<strict, dev, lastId, open, cend, send, fresh, freshLo, pr, blocked, dnr, maxc, ga, resv, slack, doomed, own, req>>
 
 (* HEADERS of request r open stream s on connection c *)
 Hdr(c, s, r, es) ==
@@ -226,13 +227,13 @@ Hdr(c, s, r, es) ==
     /\ fresh' = [fresh EXCEPT ![c] = @ \cup {s}] /\ freshLo' = [freshLo EXCEPT ![c] = @ \cup {s}]
     /\ own' = [own EXCEPT ![c] = (s :> r) @@ @]
     /\ req' = [req EXCEPT ![r] = [@ EXCEPT !.st = "open", !.c = c, !.s = s, !.may = {}]]
-    /\ UNCHANGED <<strict, cst, send, pr, blocked, dnr, maxc, ga, resv, slack, doomed>>
+    /\ UNCHANGED <<strict, dev, cst, send, pr, blocked, dnr, maxc, ga, resv, slack, doomed>>
 
 Data(c, s, es) ==
     /\ c \in Conns /\ s \in DOMAIN own[c]
     /\ cend' = [cend EXCEPT ![c] = IF es THEN @ \cup {s} ELSE @]
     /\ IF es /\ s \in open[c] /\ s \in send[c] THEN Drop(c, {s}) ELSE NoDrop
-    /\ UNCHANGED <<strict, cst, lastId, send, fresh, freshLo, pr, blocked, dnr, maxc, ga, resv, own, req>>
+    /\ UNCHANGED <<strict, dev, cst, lastId, send, fresh, freshLo, pr, blocked, dnr, maxc, ga, resv, own, req>>
 
 (* RST_STREAM from the client.  A CANCEL (8) reset of a request the server has not answered in  *)
 (* any way keeps its concurrency slot until a PING ack ("pending reset").                        *)
@@ -244,7 +245,7 @@ Rst(c, s, code) ==
        \/ can /\ pr' = [pr EXCEPT ![c] = @ + 1]
        \/ ~must /\ pr' = pr
     /\ Drop(c, {s})
-    /\ UNCHANGED <<strict, cst, lastId, cend, send, fresh, freshLo, blocked, dnr, maxc, ga, resv, own, req>>
+    /\ UNCHANGED <<strict, dev, cst, lastId, cend, send, fresh, freshLo, blocked, dnr, maxc, ga, resv, own, req>>
 
 (* RoundTrip returns *)
 Ret(r, kind) ==
@@ -254,7 +255,7 @@ Ret(r, kind) ==
           /\ LET c == req[r].direct IN                                         \* takes no requests (now)
              ~Usable(c) \/ (~strict /\ Count(c) + resv[c] >= maxc[c])
     /\ req' = [req EXCEPT ![r] = [@ EXCEPT !.st = "done", !.may = {}]]
-    /\ UNCHANGED <<strict, connVars>>
+    /\ UNCHANGED <<strict, dev, connVars>>
 
 (* the client closes the connection.  C18: not under a request the server may still answer. *)
 CClosed(c) ==
@@ -262,7 +263,7 @@ CClosed(c) ==
     /\ J18 => ~\E r \in Reqs : req[r].st = "open" /\ req[r].c = c /\ cst[c] = "up"
     /\ cst' = [cst EXCEPT ![c] = "closed"]
     /\ Drop(c, open[c])
-    /\ UNCHANGED <<strict, lastId, cend, send, fresh, freshLo, pr, blocked, dnr, maxc, ga, resv, own, req>>
+    /\ UNCHANGED <<strict, dev, lastId, cend, send, fresh, freshLo, pr, blocked, dnr, maxc, ga, resv, own, req>>
 
 -----------------------------------------------------------------------------
 (* ---------------- quiescent points ---------------- *)
@@ -278,11 +279,27 @@ QuiesceOK(facts) ==
                    THEN (f.pd > 0 /\ Usable(f.c) /\ ~slack[f.c]) => Count(f.c) + f.rv >= maxc[f.c]   \* waiting only when full
                    ELSE f.pd <= Cardinality({r \in Waiting : req[r].direct = f.c})                     \* pool never queues
 
-(* at a quiescent point the choice "retry or report" has been made *)
+(* at a quiescent point the choice "retry or report" has been made.                              *)
+(* Named deviations of the real code (known findings) are recorded in dev (judged through         *)
+(* Trace!NoNewDeviation) and the code's view is taken over so that the rest of the trace is       *)
+(* still judged:                                                                                   *)
+(*  ReservationLost  the connection holds fewer reservations than were made and not used (a       *)
+(*                   RoundTrip that fails before it gets a stream id releases two);                *)
+(*  StrictQueueStall strict mode: a request waits for a slot although the connection has room;    *)
+(*                   the slots are "taken" by the reservations of the requests queued behind it.   *)
+StallAt(f) == /\ strict /\ f.pd > 0 /\ Usable(f.c) /\ ~slack[f.c]
+              /\ Count(f.c) + resv[f.c] < maxc[f.c]
 Quiesce(facts) ==
     /\ QuiesceOK(facts)
     /\ req' = [r \in Reqs |-> IF req[r].st = "wait" THEN [req[r] EXCEPT !.may = {}] ELSE req[r]]
-    /\ UNCHANGED <<strict, connVars>>
+    /\ LET less == {f \in facts : cst[f.c] = "up" /\ f.rv < resv[f.c]}
+           lost == {f \in less : Usable(f.c)}          \* (on a connection that takes no requests it does not matter)
+           stall == {f \in facts : StallAt(f)} IN
+       /\ resv' = [c \in Conns |-> IF \E f \in less : f.c = c THEN (CHOOSE f \in less : f.c = c).rv ELSE resv[c]]
+       /\ dev' = dev \cup (IF lost # {} THEN {"ReservationLost"} ELSE {}) \cup (IF stall # {} THEN {"StrictQueueStall"} ELSE {})
+    /\ UNCHANGED <<strict, cst, lastId, open, cend, send, fresh, freshLo, pr, blocked, dnr, maxc, ga, slack, doomed, own>>
+
+NoDeviation == dev = {}
 
 (* end of a scenario: everything answered, clocks advanced, GOAWAY connections closed *)
 AllTerminated == \A r \in Reqs : req[r].st \in {"new", "done"}
@@ -344,9 +361,5 @@ NoSecondCopy == \A r \in Reqs :
 (* C18: after GOAWAY no stream is opened on that connection *)
 QuietAfterGoAway == [][\A c \in Conns : ga[c].on => lastId'[c] = lastId[c]]_vars
 IncreasingIds == [][\A c \in Conns : lastId'[c] >= lastId[c]]_vars
-(* nothing is lost: with a fair client and servers that answer or close, every started RoundTrip returns *)
-Fair == WF_vars(ClientStep) /\ WF_vars(\E c \in Conns : \E s \in open[c] \ send[c] : Resp(c, s, TRUE) /\ InFlight(OwnerOf(c, s), c, s))
-            /\ WF_vars(\E c \in Conns : ga[c].on /\ SClose(c))
-LiveSpec == Spec /\ Fair
-mcView == <<strict, cst, lastId, open, cend, send, fresh, freshLo, pr, blocked, dnr, maxc, ga, resv, slack, doomed, own, req>>
+mcView == <<strict, dev, cst, lastId, open, cend, send, fresh, freshLo, pr, blocked, dnr, maxc, ga, resv, slack, doomed, own, req>>
 =============================================================================
